@@ -205,6 +205,24 @@ def c_file_roundtrip(cfg):
                     got = mx2(X0T.copy())
                     same = type(mx2) is type(mx) and np.array_equal(ref[0], got[0]) and np.array_equal(ref[1], got[1])
                     rec("model_%s_format=%s" % (fmt, given), same)
+            # a second, different model written to the SAME path must be what the next load returns
+            mk_b = xe.MappedDFTKernel([xe.GlobalLinearEvaluator([-0.7, 0.45])], td.FeatureList([td.UMap(1, 0.9), td.TMap(1, 2)]), "SEP", bl.lda_x, bl.zero_xc)
+            mx_b = xe.MappedXC([mk_b], fs)
+            ref_b = mx_b(X0T.copy())
+            for fmt in ("yaml", "joblib"):
+                p = os.path.join(tmp, "model." + fmt)
+                if fmt == "yaml":
+                    with open(p, "w") as f:
+                        yaml.dump(mx_b, f)
+                else:
+                    joblib.dump(mx_b, p)
+                for given in (None, fmt):
+                    got = mu.load_cider_model(p, given)(X0T.copy())
+                    rec("overwritten_%s_format=%s_returns_the_model_on_disk" % (fmt, given), np.array_equal(ref_b[0], got[0]) and np.array_equal(ref_b[1], got[1]),
+                        "max |dev| from the model on disk: %r" % float(np.max(np.abs(ref_b[0] - got[0]))))
+                m_again = mu.load_cider_model(p, None)
+                m_again2 = mu.load_cider_model(p, None)
+                rec("repeated_loads_are_independent_objects_%s" % fmt, m_again is not m_again2)
             for bad, fmtb in ((os.path.join(tmp, "model.txt"), None), (os.path.join(tmp, "model.yaml"), "json")):
                 try:
                     mu.load_cider_model(bad, fmtb)
